@@ -65,6 +65,7 @@ Definition rmvar_ok (pool : list eqrec) (s : mstate) (v : vid) : bool :=
 Definition guard_ok (pool : list eqrec) (s : mstate) (x : sexp) : bool :=
   match x with
   | L [A 2; v] => live s (nat_of_sexp v) && rmvar_ok pool s (nat_of_sexp v)
+  | L [A 8; v; _] => live s (nat_of_sexp v)
   | L [A 5; v] | L [A 11; v] | L [A 17; v] | L [A 24; v] | L [A 25; v] => live s (nat_of_sexp v)
   | L [A 6; a; b] => live s (nat_of_sexp a) && live s (nat_of_sexp b)
   | L [A 3; e; _] | L [A 4; e] => eq_alive pool s (nat_of_sexp e)
@@ -86,6 +87,11 @@ Definition sm_op (pool : list eqrec) (s : mstate) (x : sexp) : mstate * sexp :=
   | L [A 5; v] => match add_cmeta_id s (nat_of_sexp v) with MOk s' => (s', L [A 0]) | MErr e => (s, smerr e) end
   | L [A 6; a; b] => match transfer_cmeta_id s (nat_of_sexp a) (nat_of_sexp b) with MOk s' => (s', L [A 0]) | MErr e => (s, smerr e) end
   | L [A 7; subj; p; o] => (add_triple s (str_of_sexp subj) (sZ p) (sZ o), L [A 0])
+  | L [A 8; v; i] =>   (* variable.initial_value = x  (plain attribute assignment; no cache is involved) *)
+      ({| vars := upd_var s (nat_of_sexp v) (fun r => {| v_name := v_name r; v_cmeta := v_cmeta r; v_order := v_order r;
+                                                         v_live := v_live r; v_init := opt_of_sexp Q_of_sexp i |});
+          names := names s; cmetas := cmetas s; eqs := eqs s; vdef := vdef s; odef := odef s; gcache := gcache s;
+          ncache := ncache s; mcmeta := mcmeta s; triples := triples s |}, L [A 0])
   | L [A 10] => (s, L [A 0; L (map snat (eqs s))])
   | L [A 11; v] => (s, L [A 0; sopt snat (get_definition s (nat_of_sexp v))])
   | L [A 12] => (s, L [A 0; L (map snat (get_state_variables s))])
